@@ -656,6 +656,9 @@ type threader struct {
 	types  []string          // their Lean types
 	conds  map[string]string // canonical Go condition -> Lean Bool expression
 	condFx map[string]string // conditions with a side effect on success (CAS): canonical Go -> Lean effect on s
+	// condFxNeg: conditions with a side effect when they are FALSE (`if !CAS(..) { return }`): canonical Go of the whole
+	// condition -> Lean effect on s, applied on the path that continues (only for `if c { …return }` without else)
+	condFxNeg map[string]string
 	stmts  map[string]string // canonical Go statement -> Lean `let` line(s) (without indentation)
 	skip   func(ast.Stmt) bool
 	ret    func(results []string) (string, error)
@@ -769,6 +772,13 @@ func (t *threader) block(stmts []ast.Stmt, ind, fall string) (string, error) {
 		}
 		thenRet := alwaysReturns(x.Body.List)
 		elseRet := x.Else != nil && alwaysReturns(elseList)
+		negFx := ""
+		if t.condFxNeg != nil {
+			negFx = t.condFxNeg[src(x.Cond)]
+		}
+		if negFx != "" && !(thenRet && x.Else == nil) {
+			return "", fmt.Errorf("condition with an effect on failure in an unsupported position: %s", src(x))
+		}
 		if thenRet && (elseRet || x.Else == nil) {
 			tb, err := t.block(x.Body.List, ind+"  ", "ERR")
 			if err != nil {
@@ -777,6 +787,9 @@ func (t *threader) block(stmts []ast.Stmt, ind, fall string) (string, error) {
 			eb, err := t.block(append(append([]ast.Stmt{}, elseList...), rest...), ind+"  ", fall)
 			if err != nil {
 				return "", err
+			}
+			if negFx != "" {
+				eb = negFx + "\n" + ind + "  " + eb
 			}
 			return "if " + c + " then\n" + ind + "  " + pre + tb + "\n" + ind + "else\n" + ind + "  " + eb, nil
 		}
